@@ -358,3 +358,33 @@ func (g *G) DigitTree() *xdoc.Doc {
 	grow(r, 0, true)
 	return d.Finish()
 }
+
+// BigTree builds a document that crosses the 256 boundary in every dimension a byte could count:
+// fan same-named children under one parent (some with children of their own), one element with fan
+// attributes, and a chain of fan nested elements.
+func BigTree(fan int) *xdoc.Doc {
+	d := xdoc.NewDoc()
+	r := d.Root.AddElem("", "r", "")
+	list := r.AddElem("", "list", "")
+	for i := 1; i <= fan; i++ {
+		it := list.AddElem("", "item", "")
+		if i%64 == 1 || i > fan-3 {
+			it.AddElem("", "sub", "").AddText("v")
+			it.AddElem("", "sub", "")
+		}
+		if i%50 == 0 {
+			list.AddText("t")
+		}
+	}
+	attrs := r.AddElem("", "attrs", "")
+	for i := 1; i <= fan; i++ {
+		attrs.AddAttr("", fmt.Sprintf("a%d", i), "", "1")
+	}
+	deep := r.AddElem("", "deep", "")
+	cur := deep
+	for i := 1; i <= fan; i++ {
+		cur = cur.AddElem("", "n", "")
+	}
+	cur.AddText("bottom")
+	return d.Finish()
+}
